@@ -1,6 +1,7 @@
 ------------------------------ MODULE ValueTrace ------------------------------
 (* C19 (value part) - verdicts on observations of real objects.
-   kind "pair": di, dj descriptors; eq_ij, eq_ji, ne_ij (the != operator), hashable, hash_eq, tok_eq
+   kind "pair": di, dj descriptors; eq_ij, eq_ji, ne_ij (the != operator), hashable, hash_eq, tok_eq; ueq_ij, ueq_ji, uhash_eq: the same
+                comparisons repeated after every object of the family has been used
    kind "obj":  d; refl; pickle ("ok" | exception); pickle_eq, pickle_tok, copy_tok, hash_stable;
                 the same once more AFTER USE (every view / derived attribute of the object read, which fills its caches): a value is what it was
                 before somebody looked at it - used ("ok" | exception while reading), used_eq, used_tok, used_hash, used_pickle, used_pickle_eq, used_pickle_tok
@@ -13,6 +14,8 @@ PairVerdict(e) ==
   ELSE IF e.ne_ij = e.eq_ij THEN "reject:ne_is_not_the_negation_of_eq"
   ELSE IF e.eq_ij /\ e.hashable /\ ~e.hash_eq THEN "reject:equal_objects_hash_differently"
   ELSE IF ~e.eq_ij /\ e.tok_eq THEN "reject:unequal_objects_share_a_token"
+  ELSE IF e.ueq_ij # e.eq_ij \/ e.ueq_ji # e.eq_ji THEN "reject:equality_of_a_pair_changes_with_use"
+  ELSE IF e.eq_ij /\ e.hashable /\ ~e.uhash_eq THEN "reject:equal_objects_hash_differently_after_use"
   ELSE IF e.di.t = "crs" /\ ExpectedEq(e.di, e.dj) /\ ~e.eq_ij THEN "reject:equivalent_crs_specifications_unequal"
   ELSE IF e.eq_ij # ExpectedEq(e.di, e.dj) THEN "drift:eq_differs_from_fieldwise_model"
   ELSE "ok"
